@@ -1,5 +1,6 @@
 #!/bin/bash
-# run_thorough.sh [P] : thorough tier for every claimed check, P at a time; one line per check in /var/tmp/thorough.log
-cd /verif; P=${1:-4}
-: > /var/tmp/thorough.log
-for pid in $(cat props/claimed.txt); do echo $pid; done | xargs -P $P -I{} bash -c 's=$(date +%s); out=$(./check {} --tier thorough 2>&1); rc=$?; e=$(date +%s); echo "{} rc=$rc $((e-s))s $(echo "$out" | grep "^VIOLATION" | head -1) $(echo "$out" | grep "^\[" | tail -1 | cut -c1-160)" >> /var/tmp/thorough.log'
+# run_thorough.sh [P] [pids...] : thorough tier for the given (default: every claimed) checks, P at a time; one line per check in /var/tmp/thorough.log, full output in /var/tmp/thorough/<pid>.out
+cd /verif; P=${1:-4}; shift
+pids=${@:-$(cat props/claimed.txt)}
+mkdir -p /var/tmp/thorough
+for pid in $pids; do echo $pid; done | xargs -P $P -I{} bash -c 's=$(date +%s); ./check {} --tier thorough > /var/tmp/thorough/{}.out 2>&1; rc=$?; e=$(date +%s); echo "{} rc=$rc $((e-s))s $(grep "^VIOLATION" /var/tmp/thorough/{}.out | head -1) $(grep "^\[" /var/tmp/thorough/{}.out | tail -1 | cut -c1-160)" >> /var/tmp/thorough.log'
